@@ -196,6 +196,9 @@ public:
   value_t fn_lot_tag(call_scope_t& scope);
   value_t fn_to_boolean(call_scope_t& scope);
   value_t fn_to_int(call_scope_t& scope);
+#if defined(LEDGER_VERIF)
+  value_t fn_verif_rational(call_scope_t& scope);
+#endif
   value_t fn_to_datetime(call_scope_t& scope);
   value_t fn_to_date(call_scope_t& scope);
   value_t fn_to_amount(call_scope_t& scope);
